@@ -47,7 +47,8 @@ void setMemStatKey(const std::string& rel, const std::string& key, long long v);
 
 // processes
 void addProc(int pid, const std::string& rel, int outcome = K_OK, int linger = 0);
-void rawProcsLine(const std::string& rel, const std::string& line);  // extra literal line in cgroup.procs (e.g. "0")
+void rawProcsLine(const std::string& rel, const std::string& line);
+void setPidsMode(const std::string& rel, int mode);  // 0 live, 1 pids.current reads 0, 2 file absent (applied by syncProcs)  // extra literal line in cgroup.procs (e.g. "0")
 std::vector<int> pidsIn(const std::string& rel, bool recursive);
 std::string cgroupOf(int pid);  // cgroup a pid was in when it was (last) listed; "" if never known
 const std::map<int, Proc>& procs();
